@@ -127,6 +127,10 @@ inductive Reason where
   | fsm (sub : Nat)   -- FSM error, subcode 1/2/3         (5, sub)
   | badPeerAs         -- OPEN Message Error / Bad Peer AS (2, 2)
   | openUnspecific    -- OPEN Message Error / Unspecific  (2, 0)
+  -- the reasons only `Command::Disconnect(reason)` brings in (session.rs `Session::disconnect`)
+  | rejected          -- Cease / ConnectionRejected        (6, 5)
+  | reconfiguration   -- Cease / OtherConfigurationChange  (6, 6)
+  | deconfigured      -- Cease / PeerDeconfigured          (6, 3)
   deriving DecidableEq, Repr
 
 def Reason.notif : Reason → Nat × Nat
@@ -135,6 +139,9 @@ def Reason.notif : Reason → Nat × Nat
   | .fsm s => (5, s)
   | .badPeerAs => (2, 2)
   | .openUnspecific => (2, 0)
+  | .rejected => (6, 5)
+  | .reconfiguration => (6, 6)
+  | .deconfigured => (6, 3)
 
 /-- One statement of an arm. -/
 inductive Act where
@@ -469,6 +476,10 @@ inductive TickInput where
                         -- middle of a frame ("connection reset by peer")
   | cmdDisconnect       -- Command::Disconnect(DisconnectReason::Shutdown)
   | cmdKeepalive        -- Command::ForcedKeepalive
+  | cmdDisconnectWith (r : Option Reason)
+                        -- Command::Disconnect(reason) for the other reasons the application can give:
+                        -- ConnectionRejected / Reconfiguration / Deconfigured / HoldTimerExpired (`some r`) and
+                        -- DisconnectReason::Other (`none`: `disconnect` sends no NOTIFICATION)
   | direct (i : Input)  -- not through `tick`
   deriving DecidableEq, Repr
 
@@ -480,6 +491,9 @@ inductive TickResult where
 /-- what `tick` does for `Command::Disconnect(Shutdown)` (session.rs:265) -/
 def cmdDisconnectActs : List Act :=
   [.disconnect .shutdown, .resetCounter, .stopCrt, .stopDop, .setState .idle]
+
+/-- what follows `self.disconnect(reason)` in the `Command::Disconnect` arm of `tick` -/
+def cmdDisconnectTail : List Act := [.resetCounter, .stopCrt, .stopDop, .setState .idle]
 
 def tickStep (cfg : Cfg) (s : St) : TickInput → TickResult
   | .direct i => .res (handleInput cfg s i)
@@ -502,6 +516,14 @@ def tickStep (cfg : Cfg) (s : St) : TickInput → TickResult
     let r := exec cfg defaultOpen s cmdDisconnectActs
     .res (.next r.1 true r.2)
   | .cmdKeepalive => .res (.next s true [.pduKeepalive])
+  | .cmdDisconnectWith r =>
+    -- `self.disconnect(reason)`: the NOTIFICATION of the reason (none for Other), keepalive and hold timers
+    -- stopped, connection dropped; then the same tail as for Shutdown (session.rs:266-275)
+    let d : St × List Out := match r with
+      | some r => execAct cfg defaultOpen s (.disconnect r)
+      | none => ({ s with ka := false, hold := false, conn := false }, [])
+    let r2 := exec cfg defaultOpen d.1 cmdDisconnectTail
+    .res (.next r2.1 true (d.2 ++ r2.2))
 
 def runTick (cfg : Cfg) : St → List TickInput → List TickResult
   | _, [] => []
